@@ -297,3 +297,44 @@ def failed_output_use(P, fn, call_ev):
         if w is not None:
             return False, 'with %s() failed, %s is still used at %s' % (call_ev.callee, hit['u'][0], hit['u'][1]), w.render()
     return True, 'outputs unused on the failure paths', None
+
+
+class _Relay:
+    """a context that re-emits selected obligations of another property's rule set under this property's rule ids
+    (the clause is shared: both properties need it)"""
+    def __init__(self, ctx, mapping, only_functions=None):
+        self._ctx = ctx
+        self._map = mapping
+        self._only = only_functions
+        self.explanation = ''
+        self.not_decided = ''
+        self.analysed = {'units': set(), 'functions': set(), 'call_sites': 0, 'configs': []}
+        self.selftest = {}
+        self.tier = ctx.tier
+        self.prop = ctx.prop
+        self.count = 0
+
+    def rule(self, rid, text):
+        pass
+
+    def saw(self, fn=None, call_sites=0):
+        pass
+
+    def floor(self, what, n, minimum):
+        pass
+
+    def note(self, s):
+        pass
+
+    def ob(self, rid, ok, function, construct, where='', detail='', witness=None):
+        if rid in self._map and (self._only is None or function in self._only):
+            self.count += 1
+            return self._ctx.ob(self._map[rid], ok, function, construct, where, detail, witness)
+        return ok
+
+
+def relay(ctx, sess, module_run, mapping, only_functions=None, minimum=1):
+    r = _Relay(ctx, mapping, only_functions)
+    module_run(r, sess)
+    ctx.floor('shared obligations %s' % sorted(mapping.values()), r.count, minimum)
+    return r.count
